@@ -149,6 +149,7 @@ pub type Sh = Arc<Shared>;
 
 impl Shared {
     pub fn new(seed: u64, jitter: u8) -> Sh {
+        crate::util::set_current(format!("simulation with log seed {seed} jitter {jitter}"));
         Arc::new(Self {
             inner: Mutex::new(Inner { log: Vec::with_capacity(256), rng: Rng64::new(seed), hash: seed, jitter, polls: 0, start: None, hook_delay_us: 0 }),
         })
